@@ -3,6 +3,7 @@ CONSTANTS
   Machine = "all"
   CrashPoints = FALSE
   RollFaults = TRUE
+  RollKills = TRUE
   MaxCount = 3
   Limit = 4
   MaxWrite = 6
@@ -16,7 +17,7 @@ CONSTANTS
   MaxDumps = 3
   PreDumps = 0
   MaxIds = 0
-INVARIANTS T_LogCount T_LogSize T_EvCount T_DumpCount
+INVARIANTS T_LogCount T_LogCountAfterRoll T_LogSize T_EvCount T_DumpCount
 PROPERTIES T_EvDropAtCap T_DumpOldestFirst
 POSTCONDITION Accepted
 CHECK_DEADLOCK FALSE
